@@ -152,7 +152,7 @@ def high_orders(fam, thorough=False):
 
 
 # ------------------------------------------------------------------------------------------ class E: argument forms (data)
-# How this table was established (2026-09-27, /repo @ faa8443, scripts probe_forms*.py / probe_orders.py of the hardening-2 pass):
+# How this table was established (2026-09-27, /repo @ faa8443, scripts recon/h2_forms.py, recon/h2_forms2.py, recon/h2_orders.py):
 # every public routine of C07-C10 was called with each form below and with the canonical form (python int orders, python float
 # shape parameters, float64 ndarray coordinates / coefficient lists) of the same mathematical input; a form is listed as accepted
 # when the current tree returns the canonical result (1e-12 of scale; single-precision forms: 1e-6).  Forms for which the current
